@@ -116,7 +116,7 @@ def main():
     print("MANIFEST.json:", len(checks), "checks,", len(man["not_applicable"]), "not claimed")
 
 
-HOOK_COMMITS = []
+HOOK_COMMITS = ["b3eb7c1"]
 
 if __name__ == "__main__":
     main()
